@@ -11,6 +11,7 @@ structure DSt where
   prev : St := {}
   accs : List String := []
   absFail : List String := []   -- lock-step disagreements between the store-level model and the accrual abstraction
+  spCache : List ((Nat × Int) × Rat) := []   -- price grid values already computed: (pool, tick) ↦ sqrt price
   slackC : List (Nat × Rat) := []   -- per pool: accumulated rounding error of the custody abstraction (CLCustody.St.slack)
   maxErr : Rat := 0                 -- largest single rounding error seen
   k : Nat := 0     -- upper bound on the banker's-rounded reward products formed so far (CLAccrual.St.k)
@@ -32,6 +33,18 @@ def showCoins (cs : List (String × Int)) : String :=
 def denoms (d : DSt) : List String :=
   (d.s.pools.foldl (fun acc p => acc ++ [p.base, p.quote]) ["urise"]).eraseDups
 
+/-- the pool's price grid through the cache; a miss is computed on the spot (TickToSqrtPrice runs a power loop) -/
+def gridOf (cache : List ((Nat × Int) × Rat)) (s : St) (pool : Nat) : Int → Rat :=
+  match getPool s pool with
+  | some p => fun t => match cache.lookup (pool, t) with | some v => v | none => CLCustody.spOf p.tp t
+  | none => fun _ => 0
+
+/-- extend the cache with the given ticks of pool `pool` -/
+def extendGrid (cache : List ((Nat × Int) × Rat)) (s : St) (pool : Nat) (ticks : List Int) : List ((Nat × Int) × Rat) :=
+  match getPool s pool with
+  | some p => ticks.eraseDups.foldl (fun c t => if (c.lookup (pool, t)).isSome then c else ((pool, t), CLCustody.spOf p.tp t) :: c) cache
+  | none => cache
+
 def dumpPool (d : DSt) (id : Nat) : List String :=
   match getPool d.s id with
   | none => [s!"pool {id} absent"]
@@ -47,7 +60,7 @@ def dumpPool (d : DSt) (id : Nat) : List String :=
     ++ ((d.s.accPos.filter (·.pool == id)).map fun a => s!"accpos {a.posId} shares={a.shares} per={DecCoins.render a.perShare} unclaimed={DecCoins.render a.unclaimed}")
     ++ [balLine (poolAddr id), balLine (feesAddr id)] ++ d.accs.map balLine
     ++ [if !d.absFail.isEmpty then "inv FAIL lockstep " ++ " | ".intercalate d.absFail
-        else match CLCustody.absC d.s id ((d.slackC.lookup id).getD 0) with
+        else match CLCustody.absC d.s id ((d.slackC.lookup id).getD 0) (gridOf d.spCache d.s id) with
           | some a => if CLCustody.invOnC a then CLAccrual.invLine d.s id ds d.k else "inv FAIL custody"
           | none => CLAccrual.invLine d.s id ds d.k]
 
@@ -102,6 +115,14 @@ def step (d : DSt) : List String → DSt × List String
     match prepareClaimableFees d.s (nat pos) with
     | .ok (_, cs) => (d, ["ok fees=" ++ showCoins cs]) | .err _ => (d, ["err"]) | .panic _ => (d, ["panic"])
   | ["dump", pool] => (d, dumpPool d (nat pool))
+  | ["tickOf", pool, ab, aq] =>
+    -- debug: the tick an empty pool would start at for first-position amounts (base, quote)
+    match getPool d.s (nat pool) with
+    | some p =>
+      (match (TickMath.sqrtPriceFromQuoteBase (int aq) (int ab)).bind (fun sp => TickMath.sqrtPriceToTick sp p.tp) with
+       | .ok t => (d, [s!"tick={t}"])
+       | _ => (d, ["err"]))
+    | none => (d, ["err"])
   | ["custodyStats"] => (d, [s!"maxErr={d.maxErr} slack={d.slackC.map fun x => (x.1, x.2)}"])
 
   | _ => (d, ["bad-op"])
@@ -204,7 +225,11 @@ def step' (d : DSt) (ts : List String) : DSt × List String :=
     let okOp := mutating && (out.head?.getD "").startsWith "ok"
     let fails := if okOp then lockstepAll d.s d'.s ts (denoms d') else []
     -- custody abstraction: per pool, the abstract operations with the actual amounts must be admissible and commute
-    let cres := if okOp then d'.s.pools.map (fun p => (p.id, CLCustody.lockstepC d.s d'.s p.id (custodyEvs d.s d'.s ts p.id))) else []
+    let evsOf := fun (id : Nat) => custodyEvs d.s d'.s ts id
+    let cache' := d'.s.pools.foldl (fun c p =>
+        let need := CLCustody.ticksOfPool d'.s p.id ++ [p.tick, p.tick + 1] ++ (if okOp then CLCustody.evTicks (evsOf p.id) else [])
+        extendGrid c d'.s p.id need) (if ts.head? == some "reset" then [] else d.spCache)
+    let cres := if okOp then d'.s.pools.map (fun p => (p.id, CLCustody.lockstepC d.s d'.s p.id (evsOf p.id) (gridOf cache' d'.s p.id))) else []
     let cfails := cres.filterMap fun (id, ok, within, _) =>
       if !ok then some s!"custody {ts.head?.getD ""} pool={id}"
       else if !within then some s!"custody-rounding {ts.head?.getD ""} pool={id}" else none
@@ -213,7 +238,7 @@ def step' (d : DSt) (ts : List String) : DSt × List String :=
       (if ts.head? == some "reset" then [] else d.slackC)
     let maxErr' := d.maxErr
     let fails := fails ++ cfails
-    ({ d' with prev := d.s, slackC := slack', maxErr := maxErr', absFail := (if ts.head? == some "reset" then [] else d.absFail) ++ fails, k := if ts.head? == some "reset" then 0 else d.k + 2 * ts.foldl (fun n t => n + (t.splitOn ",").length) 1 }, out)
+    ({ d' with prev := d.s, spCache := cache', slackC := slack', maxErr := maxErr', absFail := (if ts.head? == some "reset" then [] else d.absFail) ++ fails, k := if ts.head? == some "reset" then 0 else d.k + 2 * ts.foldl (fun n t => n + (t.splitOn ",").length) 1 }, out)
 
 def run := runSuite ({} : DSt) step'
 end Sunrise.Driver.CLSuite
